@@ -33,6 +33,81 @@ func vpH_C19_joinleave() {
 	vpCover(true, "ran")
 }
 
+// interest_step: JOIN / LEAVE in the trace match the ACTUAL joins and leaves under every router: from an arbitrary
+// interest state (0..2 subscriptions, 0..2 relay references) ONE real handler runs (subscribe, cancel, relay, relay
+// cancel): exactly one JOIN is traced when interest in the topic begins, exactly one LEAVE when it ends, nothing
+// otherwise - so JOIN and LEAVE alternate per topic over histories of any length, also for a relay taken while
+// subscribed or a subscription taken while relaying.
+func vpInterestStep(router string) {
+	nd := vpNewNode("self", vpNodeCfg{router: router, tracer: true})
+	ps := nd.ps
+	nSubs, nRel := vpInt("subs", 0, 2), vpInt("relays", 0, 2)
+	t := &Topic{p: ps, topic: vpT0, evtHandlers: map[*TopicEventHandler]struct{}{}}
+	ps.myTopics[vpT0] = t
+	var subs []*Subscription
+	for i := 0; i < 2; i++ {
+		s := &Subscription{topic: vpT0, ch: make(chan *Message, 3), ctx: ps.ctx}
+		subs = append(subs, s)
+		if i < nSubs {
+			if ps.mySubs[vpT0] == nil {
+				ps.mySubs[vpT0] = map[*Subscription]struct{}{}
+			}
+			ps.mySubs[vpT0][s] = struct{}{}
+		}
+	}
+	if nRel > 0 {
+		ps.myRelays[vpT0] = nRel
+	}
+	in0 := nSubs > 0 || nRel > 0
+	if in0 {
+		ps.rt.Join(vpT0) // (the router has been told, as the handlers do on the first reference)
+	}
+	nd.tr.evts = nil
+	subs2, rel2 := nSubs, nRel
+	switch vpInt("op", 0, 3) {
+	case 0:
+		ns := &Subscription{topic: vpT0, ch: make(chan *Message, 3), ctx: ps.ctx}
+		ps.handleAddSubscription(&addSubReq{sub: ns, resp: make(chan *Subscription, 1)})
+		subs2++
+	case 1:
+		vpAssume(nSubs > 0)
+		ps.handleRemoveSubscription(subs[0])
+		subs2--
+	case 2:
+		ps.handleAddRelay(&addRelayReq{topic: vpT0, resp: make(chan RelayCancelFunc, 1)})
+		rel2++
+	case 3:
+		vpAssume(nRel > 0)
+		ps.handleRemoveRelay(vpT0)
+		rel2--
+	}
+	in1 := subs2 > 0 || rel2 > 0
+	joins, leaves := 0, 0
+	for _, e := range nd.tr.evts {
+		if e.typ == pb.TraceEvent_JOIN && e.topic == vpT0 {
+			joins++
+		}
+		if e.typ == pb.TraceEvent_LEAVE && e.topic == vpT0 {
+			leaves++
+		}
+	}
+	wantJ, wantL := 0, 0
+	if !in0 && in1 {
+		wantJ = 1
+	}
+	if in0 && !in1 {
+		wantL = 1
+	}
+	vpAssert(joins == wantJ, "exactly one JOIN is traced when interest in a topic begins and none otherwise ("+router+")")
+	vpAssert(leaves == wantL, "exactly one LEAVE is traced when interest in a topic ends and none otherwise ("+router+")")
+	vpCover(nSubs == 1 && nRel == 0 && rel2 == 1, "relay taken while subscribed")
+	vpCover(nSubs == 0 && nRel == 1 && subs2 == 1, "subscription taken while relaying")
+	vpCover(in0 && !in1, "last reference dropped")
+}
+func vpH_C19_interest_step_gs() { vpInterestStep("gossipsub") }
+func vpH_C19_interest_step_fs() { vpInterestStep("floodsub") }
+func vpH_C19_interest_step_rs() { vpInterestStep("randomsub") }
+
 // mesh_rebuild: from a state in which the replayed trace equals the router state, ONE real gossipsub handler runs with
 // the recording tracer attached; applying the recorded stream-opened/closed, GRAFT, PRUNE, JOIN and LEAVE events as
 // set operations reproduces the router's peer set and the topic's mesh.
@@ -218,5 +293,76 @@ func vpH_C19_deliver_batch() {
 	}
 	vpAssert(sent == k, "every message of the batch is queued to the mesh peer once")
 	vpCover(k == 2, "two messages")
+	n.shutdown()
+}
+
+// batch_reuse: the SAME MessageBatch object is refilled after PublishBatch has returned but before the event loop has
+// consumed the hand-over (the hand-over channel buffers one batch), then published again: every message of either
+// publication has exactly one DELIVER_MESSAGE event, reaches the local subscription once and is queued to the mesh peer
+// once — the slice handed to the event loop must not share storage with the batch being refilled.
+func vpH_C19_batch_reuse_early() { vpBatchReuse(true) }
+func vpH_C19_batch_reuse_late()  { vpBatchReuse(false) }
+
+func vpBatchReuse(refillEarly bool) {
+	vpOpt("unwind", 24)
+	params := vpSmallParams()
+	n := vpNewNode("self", vpNodeCfg{router: "gossipsub", params: &params, tracer: true})
+	ps := n.ps
+	sub := &Subscription{topic: vpT0, ch: make(chan *Message, 6), ctx: ps.ctx}
+	ps.handleAddSubscription(&addSubReq{sub: sub, resp: make(chan *Subscription, 1)})
+	q := n.vpAddPeer("p0", GossipSubID_v11, true)
+	ps.handleIncomingRPC(vpSubRPC("p0", vpT0, true))
+	n.gs.mesh[vpT0]["p0"] = struct{}{}
+	vpDrain(q)
+	ms := []*Message{vpMkMsg("self", "1", vpT0), vpMkMsg("self", "2", vpT0), vpMkMsg("self", "3", vpT0)}
+	for _, m := range ms {
+		m.ReceivedFrom = "self"
+		vpAssert(ps.val.ValidateLocal(m) == nil, "a valid local publication is accepted")
+	}
+	n.tr.evts = nil
+	k1 := vpInt("first_batch_size", 1, 2)
+	b := &MessageBatch{}
+	for i := 0; i < 2; i++ {
+		if i < k1 {
+			b.add(ms[i])
+		}
+	}
+	vpAssert(ps.PublishBatch(b) == nil, "PublishBatch hands the batch over")
+	// refill the same batch object while the first hand-over is still waiting for the event loop
+	if refillEarly {
+		b.add(ms[2])
+	}
+	n.loop()
+	if !refillEarly {
+		b.add(ms[2])
+	}
+	vpAssert(ps.PublishBatch(b) == nil, "PublishBatch hands the refilled batch over")
+	n.loop()
+	sentRPCs := vpDrain(q)
+	for i, m := range ms {
+		want := 1
+		if i == 1 && k1 < 2 {
+			want = 0
+		}
+		id := ps.idGen.ID(m)
+		del := 0
+		for _, e := range n.tr.evts {
+			if e.typ == pb.TraceEvent_DELIVER_MESSAGE && e.mid == id {
+				del++
+			}
+		}
+		vpAssert(del == want, "every message of a published batch has exactly one DELIVER_MESSAGE event, none twice, also when the batch object is reused")
+		sent := 0
+		for _, r := range sentRPCs {
+			for _, pm := range r.Publish {
+				if pm == m.Message {
+					sent++
+				}
+			}
+		}
+		vpAssert(sent == want, "every message of the batch is queued to the mesh peer exactly once")
+	}
+	vpAssert(len(sub.ch) == k1+1, "the local subscription receives every published message once")
+	vpCover(k1 == 2, "two-message batch, then a refill of the same object")
 	n.shutdown()
 }
